@@ -6,6 +6,7 @@ Case lines (shared with harness/c10):
   clone o<k> /c10/obj
   vapply o<k> set_script co:<tag> <op>;<op>;...
   vapply o<k> do_op <op>
+  gop o<g> o<k> <op>            the same apply with command_giver = o<g> (if it is not destructed)
   adv <dt>
   sweep
 op syntax (comma separated): co,<fn>,<delay>,<tag> | cofp,<fn>,<delay>,<tag> | rmh,<tag> | rmn,<fn> | fh,<tag> | fn,<fn> | rmall |
@@ -58,6 +59,10 @@ def parseLine (p : Parsed) (line : String) : Parsed :=
     match parseOid o, parseOp op with
     | some k, some op => { p with cmds := Cmd.op k op :: p.cmds }
     | _, _ => { p with bad := line :: p.bad }
+  | ["gop", g, o, op] =>
+    match parseOid g, parseOid o, parseOp op with
+    | some g, some k, some op => { p with cmds := Cmd.gop g k op :: p.cmds }
+    | _, _, _ => { p with bad := line :: p.bad }
   | ["adv", dt] =>
     match dt.toNat? with
     | some d => { p with cmds := Cmd.adv d :: p.cmds }
@@ -76,6 +81,13 @@ def scriptsOf (p : Parsed) : Scripts := fun o tag =>
 
 def oid (o : Nat) : String := s!"o{o}"
 
+def renderTp : Option Nat → String
+  | some g => s!"o{g}"
+  | none => "-"
+
+def parseTp (s : String) : Option (Option Nat) :=
+  if s == "-" then some none else (parseOid s).map some
+
 def renderRow (r : Nat × Nat × Int) : String :=
   if r.2.1 = 0 then s!"o{r.1}/<function>/{r.2.2}" else s!"o{r.1}/co{r.2.1 - 1}/{r.2.2}"
 
@@ -83,8 +95,8 @@ def renderRow (r : Nat × Nat × Int) : String :=
 def render : Ev → String
   | .tickbegin t => s!"{t} tickbegin"
   | .tickend t => s!"{t} tickend"
-  | .co t o f d tag h fp => s!"{t} r {if fp then "cofp" else "co"} o{o} {f} {d} {tag} {h}"
-  | .fire t o f tag => s!"{t} fire o{o} {f} {tag}"
+  | .co t o f d tag h fp g => s!"{t} r {if fp then "cofp" else "co"} o{o} {f} {d} {tag} {h} {renderTp g}"
+  | .fire t o f tag tp => s!"{t} fire o{o} {f} {tag} {renderTp tp}"
   | .rmh t o tag r => s!"{t} r rmh o{o} {tag} {r}"
   | .fh t o tag r => s!"{t} r fh o{o} {tag} {r}"
   | .rmn t o f r => s!"{t} r rmn o{o} {f} {r}"
@@ -117,11 +129,11 @@ def parseEv (line : String) : Ev :=
   match toks line with
   | [t, "tickbegin"] => orBad do some (.tickbegin (← t.toInt?))
   | [t, "tickend"] => orBad do some (.tickend (← t.toInt?))
-  | [t, "r", "co", o, f, d, tag, h] =>
-    orBad do some (.co (← t.toInt?) (← parseOid o) (← f.toNat?) (← d.toInt?) tag (← h.toInt?) false)
-  | [t, "r", "cofp", o, f, d, tag, h] =>
-    orBad do some (.co (← t.toInt?) (← parseOid o) (← f.toNat?) (← d.toInt?) tag (← h.toInt?) true)
-  | [t, "fire", o, f, tag] => orBad do some (.fire (← t.toInt?) (← parseOid o) (← f.toNat?) tag)
+  | [t, "r", "co", o, f, d, tag, h, g] =>
+    orBad do some (.co (← t.toInt?) (← parseOid o) (← f.toNat?) (← d.toInt?) tag (← h.toInt?) false (← parseTp g))
+  | [t, "r", "cofp", o, f, d, tag, h, g] =>
+    orBad do some (.co (← t.toInt?) (← parseOid o) (← f.toNat?) (← d.toInt?) tag (← h.toInt?) true (← parseTp g))
+  | [t, "fire", o, f, tag, tp] => orBad do some (.fire (← t.toInt?) (← parseOid o) (← f.toNat?) tag (← parseTp tp))
   | [t, "r", "rmh", o, tag, r] => orBad do some (.rmh (← t.toInt?) (← parseOid o) tag (← r.toInt?))
   | [t, "r", "fh", o, tag, r] => orBad do some (.fh (← t.toInt?) (← parseOid o) tag (← r.toInt?))
   | [t, "r", "rmn", o, f, r] => orBad do some (.rmn (← t.toInt?) (← parseOid o) (← f.toNat?) (← r.toInt?))
@@ -152,6 +164,7 @@ def Violation.render : Violation → String
   | .fireUnscheduled o f tag t => s!"fire-unscheduled-removed-or-repeated owner=o{o} fn={f} tag={tag} at={t}"
   | .fireEarly o tag due t => s!"fire-early owner=o{o} tag={tag} due={due} at={t} early={due - t}"
   | .fireDestructedOwner o tag => s!"fire-destructed-owner owner=o{o} tag={tag}"
+  | .fireWrongPlayer o tag got want => s!"fire-wrong-this_player owner=o{o} tag={tag} got={renderTp got} want={renderTp want}"
   | .removeHandleAnswer o tag got want => s!"remove-handle-answer owner=o{o} tag={tag} got={got} want={want}"
   | .removeHandleNothingPending o tag got => s!"remove-handle-nothing-pending owner=o{o} tag={tag} got={got}"
   | .findHandleAnswer o tag got want => s!"find-handle-answer owner=o{o} tag={tag} got={got} want={want}"
